@@ -13,3 +13,25 @@ REGISTRY['C09'] = values.run
 REGISTRY['C15'] = values.run
 REGISTRY['C18'] = paths.run
 REGISTRY['C20'] = diagram.run
+
+
+def _c03(prop, tier):
+    """C03 = the single-call formulas of LabRunAbs, plus the same property over several calls on one Lab object
+    (CacheHistoryTrace C03_...): stale state carried from one call to the next shows only there."""
+    import json
+    from lv import harness
+    rc1 = labrun.run(prop, tier)
+    if rc1 == 2:
+        return 2
+    rc2, cov = history.run(prop, tier, write_evidence=False, scale=0.4)
+    p = harness.VERIF / 'evidence' / f'{prop}.json'
+    ev = json.load(open(p))
+    ev['coverage']['several_calls_on_one_lab'] = {k: cov[k] for k in ('traces_validated_against_impl', 'calls_replayed', 'fresh_interpreter_segments',
+                                                                       'violating_histories', 'model')}
+    ev['coverage']['traces_validated_against_impl'] += cov['traces_validated_against_impl']
+    ev['violations'] = ev.get('violations', 0) + cov['violating_histories']
+    json.dump(ev, open(p, 'w'), indent=1, default=str)
+    return 1 if (rc1 or rc2) else 0
+
+
+REGISTRY['C03'] = _c03
